@@ -1301,9 +1301,13 @@ public:
           "Mixing tainted data from a different sandbox type. Unwrap the "
           "tainted data with copy_and_verify or other unwrapping APIs first.");
       }
-      else if_constexpr_named(subcond2,
-                              std::is_pointer_v<T> &&
-                                !std::is_assignable_v<T&, T_RhsVal>)
+      else if_constexpr_named(
+        subcond2,
+        (std::is_pointer_v<T> && !std::is_assignable_v<T&, T_RhsVal>) ||
+          (std::is_array_v<T> &&
+           std::is_pointer_v<std::remove_all_extents_t<T>> &&
+           !std::is_assignable_v<std::remove_all_extents_t<T>&,
+                                 std::remove_all_extents_t<T_RhsVal>>))
       {
         rlbox_detail_static_fail_because(
           subcond2,
@@ -1334,9 +1338,13 @@ public:
           "Mixing tainted data from a different sandbox type. Unwrap the "
           "tainted data with copy_and_verify or other unwrapping APIs first.");
       }
-      else if_constexpr_named(subcond2,
-                              std::is_pointer_v<T> &&
-                                !std::is_assignable_v<T&, T_RhsVal>)
+      else if_constexpr_named(
+        subcond2,
+        (std::is_pointer_v<T> && !std::is_assignable_v<T&, T_RhsVal>) ||
+          (std::is_array_v<T> &&
+           std::is_pointer_v<std::remove_all_extents_t<T>> &&
+           !std::is_assignable_v<std::remove_all_extents_t<T>&,
+                                 std::remove_all_extents_t<T_RhsVal>>))
       {
         rlbox_detail_static_fail_because(
           subcond2,
